@@ -138,6 +138,25 @@ fn check_case(c: &Corpus, lay: &Layout, tf: &TextField, text: &str, family: usiz
                 continue;
             },
         };
+        // the field occupies the same bytes whatever writer the packet is serialised into: the public BinWrite impl on a
+        // writer that accepts only a few bytes per call (a socket under load, a chunking wrapper)
+        if compressed {
+            use insim_core::binrw::BinWrite;
+            let mut sink = crate::ioadapt::ShortSink::new(1 + frame.len() % 4);
+            match guarded(|| typed.write(&mut sink)) {
+                Ok(Ok(())) => {
+                    let body = sink.bytes();
+                    if body[..] != frame[1..] {
+                        p.violation(
+                            format!("C11/{}/{}/short-writing-writer", lay.name, fname),
+                            format!("{}.{fname}: serialised into a writer that accepts {} byte(s) per call the packet has {} bytes instead of {}", lay.name, 1 + frame.len() % 4, body.len(), frame.len() - 1),
+                            replay.clone(),
+                        );
+                    }
+                },
+                other => p.violation(format!("C11/{}/{}/short-writing-writer", lay.name, fname), format!("{}.{fname}: serialising into a short-writing writer: {:?}", lay.name, other.map(|x| x.map_err(|e| e.to_string()))), replay.clone()),
+            }
+        }
         p.distinct(&(compressed, &frame));
         let (range, expect_total): (&[u8], Option<usize>) = match &tf.spec {
             Kind::Text { n, .. } | Kind::ZText(n) => {
